@@ -150,6 +150,13 @@ def kfC16 (s : Stmt) : String :=
     if hit then "C16-removal-after-root-collapse" else ""
   | _ => ""
 
+/-- the optional secondary suffix of a property (`Bdir1,p2(..)`, `A,p1{..}`): written behind the
+    property marker, it numbers the property and changes nothing about its attachment -/
+def withSecondarySuffix (t : String) (k : Nat) : String :=
+  if k % 3 ≠ 0 then t else
+  let d := toString (1 + k % 4)
+  ((t.replace ",p(" (",p" ++ d ++ "(")).replace ",p{" (",p" ++ d ++ "{")).replace ",p[" (",p" ++ d ++ "[")
+
 def genC16Cases (tier : String) (seed : Nat) : Array Case := Id.run do
   let n := if tier = "thorough" then 4000 else 300
   let mut out : Array Case := #[]
@@ -157,7 +164,7 @@ def genC16Cases (tier : String) (seed : Nat) : Array Case := Id.run do
   for i in [0:n] do
     let (s, r1) := genC16Stmt (i % 3 = 0) rng
     rng := r1
-    let a := Json.mkObj [("text", (String.ofList (renderS s) : Json))]
+    let a := Json.mkObj [("text", (withSecondarySuffix (String.ofList (renderS s)) i : Json))]
     let c : Case := { id := s!"c16-{i}", op := "parse", args := a, exp := Json.str (showNode (denoteLinked s)),
                       tag := if i % 3 = 0 then "with-nested-properties" else "simple-properties",
                       note := (let e := denoteLinked s
